@@ -113,13 +113,24 @@ func GenMixed(r *rand.Rand, t *Target, mp MixedParams) *seccomp.Policy {
 			if mp.LongListChance > 0 && r.Intn(mp.LongListChance) == 0 {
 				nl = 10 + r.Intn(21)
 			}
+			var prev []seccomp.ArgumentConditions
 			for l := 0; l < nl; l++ {
+				// related lists: a list derived from an earlier list of the same syscall (prefix, suffix, extension,
+				// permutation, exact copy, one condition changed)
+				if len(prev) > 0 && r.Intn(4) == 0 {
+					d := deriveList(r, t, pool, prev[r.Intn(len(prev))])
+					prev = append(prev, d)
+					grp.NamesWithCondtions = append(grp.NamesWithCondtions, seccomp.NameWithConditions{Name: n, Conditions: d})
+					continue
+				}
 				nconds := 1 + r.Intn(mp.MaxConds)
 				if mp.VeryLongListChance > 0 && r.Intn(mp.VeryLongListChance) == 0 {
 					nconds = 9 + r.Intn(70) // one list alone spans more than 255 instructions
 				}
+				cs := GenConds(r, t, pool, nconds)
+				prev = append(prev, cs)
 				grp.NamesWithCondtions = append(grp.NamesWithCondtions,
-					seccomp.NameWithConditions{Name: n, Conditions: GenConds(r, t, pool, nconds)})
+					seccomp.NameWithConditions{Name: n, Conditions: cs})
 			}
 		}
 		// Interleave the entries of different syscalls: same-name entries need
@@ -641,4 +652,34 @@ func SatisfyAvoiding(r *rand.Rand, conds []seccomp.Condition, avoid [][]seccomp.
 		}
 	}
 	return args, true
+}
+
+func deriveList(r *rand.Rand, t *Target, pool []string, src seccomp.ArgumentConditions) seccomp.ArgumentConditions {
+	d := append(seccomp.ArgumentConditions{}, src...)
+	switch r.Intn(6) {
+	case 0: // strict prefix
+		if len(d) > 1 {
+			d = d[:1+r.Intn(len(d)-1)]
+		}
+	case 1: // suffix
+		if len(d) > 1 {
+			d = d[1+r.Intn(len(d)-1):]
+		}
+	case 2: // extension
+		d = append(d, GenConds(r, t, pool, 1+r.Intn(2))...)
+	case 3: // permutation
+		r.Shuffle(len(d), func(i, j int) { d[i], d[j] = d[j], d[i] })
+	case 4: // exact copy
+	default: // one condition changed
+		k := r.Intn(len(d))
+		switch r.Intn(3) {
+		case 0:
+			d[k].Value ^= 1 << uint(r.Intn(64))
+		case 1:
+			d[k].Operation = AllOps[r.Intn(8)]
+		default:
+			d[k].Argument = uint32(r.Intn(6))
+		}
+	}
+	return d
 }
